@@ -37,33 +37,23 @@ def partOf (field : String) : String :=
 
 def partRank (p : String) : Nat := if p == "global" then 0 else if p == "pathDefaults" then 1 else 2
 
-def two50 : Nat := 1125899906842624
-
 def step (_ : Unit) (op impl : String) : Unit × DrvOut :=
   let toks := words op
   match toks with
   | "dur" :: dS :: _ =>
-    match dS.toInt?, col toks "fmt", col toks "fmtu", col toks "parse" with
-    | some d, some (fa, fr), some (ua, ur), some (pa, pr) =>
-      let answer (fixed : Bool) : String :=
-        let (a, r) := if fixed then (ua, ur) else (fa, fr)
-        let bad : Bytes := strBytes "?oracle-argument-mismatch"
-        let fmt : Int → Bytes := fun x => if some x == a.toInt? then hexS r else bad
-        let text := if fixed then marshalDurFixed fmt d else marshalDur fmt d
-        let parse : Bytes → Option Int := fun rest => if rest == hexS pa then parseValOrE pr else some 424242424242
-        Hex.encode text ++ " " ++ valOrE (unmarshalDur parse text)
-      let cur := answer false
-      let fix := answer true
-      let model := if impl == cur then cur else if impl == fix then fix else cur
+    match dS.toInt?, col toks "fmtu", col toks "parse" with
+    | some d, some (ua, ur), some (pa, pr) =>
+      let bad : Bytes := strBytes "?oracle-argument-mismatch"
+      let fmt : Int → Bytes := fun x => if some x == ua.toInt? then hexS ur else bad
+      let text := marshalDur fmt d
+      let parse : Bytes → Option Int := fun rest => if rest == hexS pa then parseValOrE pr else some 424242424242
+      let model := Hex.encode text ++ " " ++ valOrE (unmarshalDur parse text)
       let spec :=
         match (impl.splitOn " ") with
-        | [_, v] =>
-          if v.toInt? == some d then "ok"
-          else if d == minI64 then "KNOWN duration-minint64 the most negative duration is marshalled as \"--…\" which cannot be read back"
-          else "FAIL duration does not survive the JSON round trip"
+        | [_, v] => if v.toInt? == some d then "ok" else "FAIL duration does not survive the JSON round trip"
         | _ => "FAIL unparsable implementation answer"
       ((), { model, spec })
-    | _, _, _, _ => ((), { model := "bad-op" })
+    | _, _, _ => ((), { model := "bad-op" })
   | ["udur", textH, _] =>
     match col toks "parse" with
     | some (pa, pr) =>
@@ -86,55 +76,23 @@ def step (_ : Unit) (op impl : String) : Unit × DrvOut :=
   | ["ss", sS] =>
     match sS.toNat? with
     | some s =>
-      let cur := Hex.encode (marshalSS s) ++ " " ++ toString (roundTripSS s)
-      let fix := Hex.encode (marshalSSFixed s) ++ " " ++ toString (roundTripSSFixed s)
-      let model := if impl == fix then fix else if s < two50 then cur else "-"
+      let model := Hex.encode (marshalSS s) ++ " " ++ toString (roundTripSS s)
       let spec :=
         match (impl.splitOn " ") with
-        | [_, v] =>
-          if v.toNat? == some s then "ok"
-          else if s ≥ two50 || !rtOK s then "KNOWN stringsize-inexact StringSize is marshalled with one decimal of its unit and reads back as a different number of bytes"
-          else "FAIL byte size does not survive the JSON round trip"
+        | [_, v] => if v.toNat? == some s then "ok" else "FAIL byte size does not survive the JSON round trip"
         | _ => "FAIL unparsable implementation answer"
       ((), { model, spec })
     | none => ((), { model := "bad-op" })
   | ["ipn", _] =>
     ((), { model := "-", spec := if impl.startsWith "diff" then "FAIL IP network does not survive the JSON round trip" else "ok" })
   | "conf" :: _ :: _ =>
-    let ss := (listOf (argOf toks "ss")).map fieldVal
-    let du := (listOf (argOf toks "du")).map fieldVal
-    let badDu := du.filter fun (_, v) => v.toInt? == some minI64
-    let badSs := ss.filter fun (_, v) => match v.toNat? with | some s => s ≥ two50 || !rtOK s | none => true
-    let hugeSs := ss.any fun (_, v) => match v.toNat? with | some s => s ≥ two50 | none => true
-    -- the part whose decoding fails first: global, pathDefaults, then paths in sorted order
-    let errParts := badDu.map fun (f, _) => partOf f
-    let firstErr : Option String :=
-      errParts.foldl (fun best p =>
-        match best with
-        | none => some p
-        | some b =>
-          if partRank p < partRank b || (partRank p == partRank b && ltBytes (strBytes p) (strBytes b)) then some p else some b) none
-    let cur : String :=
-      match firstErr with
-      | some p => "err " ++ p
-      | none =>
-        if hugeSs then "-"
-        else
-          let l := sortBytes ((ss.filter fun (_, v) => match v.toNat? with | some s => !rtOK s | none => true).map fun (f, _) => strBytes f)
-          if l.isEmpty then "eq" else "diff " ++ ",".intercalate (l.map bytesStr)
-    let model := if impl == "eq" then "eq" else cur
+    -- every parameter survives: the model predicts `eq` for every configuration
     let spec :=
       if impl == "eq" then "ok"
-      else if impl.startsWith "err " then
-        if badDu.isEmpty then "FAIL the encoded configuration is rejected by the decoder: " ++ impl
-        else "KNOWN duration-minint64 a configuration holding the most negative duration cannot be read back"
-      else if impl.startsWith "diff " then
-        let fields := ((impl.drop 5).toString).splitOn ","
-        match fields.find? (fun f => !(badSs.any fun (g, _) => g == f)) with
-        | some f => "FAIL parameter " ++ f ++ " does not survive the JSON round trip"
-        | none => "KNOWN stringsize-inexact byte sizes that are not a whole number of tenths of their unit read back changed"
+      else if impl.startsWith "err " then "FAIL the encoded configuration is rejected by the decoder: " ++ impl
+      else if impl.startsWith "diff " then "FAIL parameter(s) " ++ (impl.drop 5).toString ++ " do not survive the JSON round trip"
       else "FAIL unparsable implementation answer"
-    ((), { model, spec })
+    ((), { model := "eq", spec })
   | _ => ((), { model := "bad-op" })
 
 def main (args : List String) : IO UInt32 := runDriver args () step
